@@ -668,6 +668,20 @@ def run(ck):
     ck.ob('PROV-map-names', mp.loc(pbl), ok and ok2, 'the shorthand "!NAME" declares residue NAME without fetching its block: the marker is stripped from the residue name the atoms get '
           '(_parse_blocks) and from the identifier (_blocks), so it names the same mapping as the longhand spelling', key='PROV-map-names|no-fetch-marker')
     prefix_order_table(ck, ff)
+    # .mapping node lines: what is written on the atom's own line wins over what the block identifier carries
+    nodes_fn = mp.func('MappingDirector._nodes')
+    ck.analysed(mp, nodes_fn)
+    upd = [c for c in walk_local(nodes_fn) if isinstance(c, ast.Call) and call_attr(c) == 'update' and isinstance(c.func.value, ast.Name) and c.args]
+    ok = len(upd) == 1
+    if ok:
+        base = single_def(nodes_fn, upd[0].func.value.id)
+        arg = upd[0].args[0]
+        arg_defs = assignments_to(nodes_fn, arg.id) if isinstance(arg, ast.Name) else [arg]
+        handed = [c for c in walk_local(nodes_fn) if isinstance(c, ast.Call) and isinstance(c.func, ast.Subscript) and u(c.func.value) == 'builder_methods']
+        ok = isinstance(base, ast.Call) and call_attr(base) == '_resolve_atom_spec' and any(isinstance(d, ast.Call) and call_name(d) == '_parse_atom_attributes' for d in arg_defs) and \
+            len(handed) == 1 and [u(a) for a in handed[0].args] == [upd[0].func.value.id]
+    ck.ob('PROV-node-attributes', mp.loc(nodes_fn), ok, 'a node of a .mapping file gets the attributes of its block identifier *updated with* those written on its own line '
+          '(the line wins), and that dictionary is what the builder receives', key='PROV-node-attributes|precedence')
     shared.truthy_zero(ck, [FF, ITP, PU, MAP, 'vermouth/map_input.py'])
     ck.assume('token-level grammar, macro substitution results and .map weight arithmetic are not decided')
 
